@@ -281,8 +281,56 @@ def accuracy_case(c):
   return out
 
 
+def nnx_opt_rebuilt(c):
+  """nnx.Optimizer whose object graph is rebuilt between steps by the graph machinery (nnx.jit train step, merge(split(opt)), clone), with optax
+  states that are NamedTuples whose fields are not in alphabetical order (rprop): params and optimizer state follow the hand loop"""
+  txs = {'adam': lambda: optax.adam(1e-2), 'rprop': lambda: optax.rprop(1e-2), 'chain_rprop': lambda: optax.chain(optax.clip(1.0), optax.rprop(1e-2)),
+         'momentum': lambda: optax.sgd(0.25, momentum=0.5)}
+
+  class Net(nnx.Module):
+    def __init__(self):
+      self.w = nnx.Param(jnp.asarray(np.array(c['w'], dtype=np.float64)))
+      self.b = nnx.Param(jnp.asarray(np.array(c['b'], dtype=np.float64)))
+
+  def grads_for(p, i):
+    return jax.tree_util.tree_map(lambda x: (x * 0 + 1.0) * ((i + 1) * (1.0 if i % 2 == 0 else -2.0)) + 0.5 * x, p)
+  model = Net()
+  opt = nnx.Optimizer(model, txs[c['tx']]())
+  p = nnx.state(Net(), nnx.Param)
+  tx = txs[c['tx']]()
+  o = tx.init(p)
+  steps = []
+
+  @nnx.jit
+  def jit_step(opt, g):
+    opt.update(g)
+  for i in range(c['steps']):
+    g = grads_for(nnx.state(opt.model, nnx.Param), i)
+    if c['mode'] == 'jit':
+      jit_step(opt, g)
+    else:
+      if c['mode'] == 'splitmerge':
+        opt = nnx.merge(*nnx.split(opt))
+      elif c['mode'] == 'clone':
+        opt = nnx.clone(opt)
+      opt.update(g)
+    u, o = tx.update(grads_for(p, i), o, p)
+    p = optax.apply_updates(p, u)
+    a = [np.asarray(x, dtype=np.float64) for x in jax.tree_util.tree_leaves(nnx.state(opt.model, nnx.Param))]
+    b = [np.asarray(x, dtype=np.float64) for x in jax.tree_util.tree_leaves(p)]
+    # the optimizer state in optax's own structure (the wrapper's Variables unwrapped field by field), so that leaves pair up by field
+    from flax.nnx.training.optimizer import _opt_state_variables_to_state
+    oa = [np.asarray(x, dtype=np.float64) for x in jax.tree_util.tree_leaves(_opt_state_variables_to_state(opt.opt_state))]
+    ob = [np.asarray(x, dtype=np.float64) for x in jax.tree_util.tree_leaves(o)]
+    close = lambda xs, ys: len(xs) == len(ys) and all(x.shape == y.shape and np.allclose(x, y, rtol=1e-12, atol=1e-12) for x, y in zip(xs, ys))
+    steps.append({'params_close': bool(close(a, b)), 'opt_close': bool(close(oa, ob)), 'step': int(opt.step.value)})
+  return {'steps': steps}
+
+
 def main(payload):
   res = {}
+  if 'nnx_opt_rebuilt' in payload:
+    res['nnx_opt_rebuilt'] = [safe(lambda c=c: nnx_opt_rebuilt(c)) for c in payload['nnx_opt_rebuilt']]
   for key, fn in (('linen_ts', linen_ts), ('nnx_opt', nnx_opt), ('nnx_ts', nnx_trainstate)):
     if key in payload:
       res[key] = [safe(lambda c=c: fn(c)) for c in payload[key]]
